@@ -56,10 +56,18 @@ type bucketObjectIterator struct {
 	cur      *bucketData
 	seenData bool
 	done     bool
+
+	// didSeek is set when Seek has positioned iter on the version that the
+	// following call to Next must yield (skiplist's Seek lands on the element
+	// itself, its Next would move past it).
+	didSeek bool
 }
 
+// Seek positions the iterator so that the next call to Next yields the version
+// with the given ID, or the first one after it.
 func (b *bucketObjectIterator) Seek(key gofakes3.VersionID) bool {
-	if b.iter.Seek(key) {
+	if b.iter != nil && b.iter.Seek(key) {
+		b.didSeek = true
 		return true
 	}
 
@@ -80,7 +88,8 @@ func (b *bucketObjectIterator) Next() bool {
 	}
 
 	if b.iter != nil {
-		iterAlive := b.iter.Next()
+		iterAlive := b.didSeek || b.iter.Next()
+		b.didSeek = false
 		if iterAlive {
 			b.cur = b.iter.Value().(*bucketData)
 			return true
